@@ -232,6 +232,10 @@ def gen_case(rng, ctx):
             s2 = floor_ms(s2) if rng.random() < 0.8 else s2
         elif r < 0.6:
             s2 = base + s1 * unit + rng.choice([0, 0, -1000, 1000])
+        elif r < 0.64:
+            # far outside the window, but by whole days / hours / minutes plus a remainder around the pulsetime
+            s2 = e1end + rng.choice([86400, 86400, 2 * 86400, 7 * 86400, 3600, 60]) * 10**6 + rng.choice([0, 1000, pu, pu - 1000, pu // 2])
+            s2 = floor_ms(s2)
         else:
             s2 = base + rng.randrange(0, 14) * unit
         d2 = rng.choice([0, 0, 1, 2, 4, 9, -1]) * unit + rng.choice([0, 0, 1, 999])
